@@ -166,11 +166,18 @@ inductive Tok
   | short (c : Char)        -- `-c`
   | long (n : Str)          -- `--name` (an exact option string or an abbreviation; `n` is not empty)
   | eq (n : Str) (v : Word) -- `--name=value`, split at the FIRST `=`; the value (possibly empty) with what the converters make of it
-  | other                   -- everything else (`--`, `-c=v`, `-ab`, empty string …): outside the fragment
+  /-- a single-dash string with more than one character behind the dash: `-cREST`, or `-c=REST` (`eq`; the lexer takes
+  ONE `=` directly behind the first letter away, as argparse does when `-c` is an option string of the parser — when it
+  is not, the whole string is left over and what was taken away plays no part).  `v` = REST with what the converters make
+  of it: the *explicit argument* of `-c` (empty only in `-c=`).  `more` = REST read as further option letters, each with
+  what stands behind it in the string (`none`: nothing — the last letter). -/
+  | attached (c : Char) (eq : Bool) (v : Word) (more : List (Char × Option Word))
+  | sep                     -- the FIRST `--` of the line: every string behind it is a `word`, whatever it looks like
+  | other                   -- everything else (a second `--`, the empty string, invalid UTF-8 …): outside the fragment
 deriving DecidableEq, Repr, Inhabited
 
-/-- `--` is not an abbreviation of anything (argparse: "everything after it is positional"): a long token without a
-name is the same string and is outside the fragment as well -/
+/-- `--` is not an abbreviation of anything (argparse: "everything after it is positional" — the lexer renders the
+first one as `sep`): a long token without a name is outside the fragment -/
 def Tok.isOther : Tok → Bool
   | .other => true
   | .long [] => true
@@ -205,7 +212,7 @@ inductive ErrKind
   | missing                 -- a required positional is absent
   | unrecognized            -- left-over arguments
   | ambiguous               -- `--abc` / `--abc=v` is the prefix of two or more long options and equal to none
-  | explicitArg             -- `--flag=v`, `--help=v`: an option that takes no value was given one (`ignored explicit argument`)
+  | explicitArg             -- `--flag=v`, `--help=v`, `-f=`, `-fx` (`x` no option letter): an option that takes no value was given one (`ignored explicit argument`)
 deriving DecidableEq, Repr, Inhabited
 
 inductive Action
@@ -243,15 +250,85 @@ def PState.addOpt (st : PState) (n : Str) (v : ArgVal) : PState := { st with opt
 
 def dashdash : Str := ['-', '-']
 
+/-- the parameter of an option that takes a value (`nargs=None`); a flag (`store_true`) and the help action take none -/
+def OptSpec.valued (o : OptSpec) : Option Param :=
+  match o.param with
+  | some p => if p.kind = .flag then none else some p
+  | none => none
+
+def OptSpec.isHelp (o : OptSpec) : Bool := o.param.isNone
+
+/-- what argparse's loop over ONE single-dash string (`consume_optional`, Python 3.12.1) arrives at before it takes any
+action -/
+inductive Walk
+  | refused                            -- `ignored explicit argument`: behind an option that takes no value stands a
+                                       -- character that is no option letter of the command, or (`-f=`) an empty explicit argument
+  | done (noval : List OptSpec) (fin : Option (Param × Option Word))
+                                       -- the options without a value met, in order (flags, help); then possibly an option
+                                       -- with a value: `some w` = the rest of the string is its value, `none` = the next string is
+deriving Repr, Inhabited
+
+/-- `o` is the action of the letter just read, `arg` what stands behind that letter in the string (`none`: nothing) and
+`more` the same text read as letters.  An option that takes a value ends the walk — the rest of the string is its
+value (`-abgG` = `-a -b -g G`), or the next string is (`-abg G`).  Behind an option that takes none, the next character must
+again be an option letter (`-ab` = `-a -b`; `-h` counts). -/
+def walk (tbl : List OptSpec) : List (Char × Option Word) → OptSpec → Option Word → List OptSpec → Walk
+  | more, o, arg, acc =>
+    match o.valued with
+    | some p => .done acc (some (p, arg))
+    | none =>
+      match arg with
+      | none => .done (acc ++ [o]) none
+      | some _ =>
+        match more with
+        | [] => .refused
+        | (c, a) :: more' =>
+          match findShort tbl c with
+          | none => .refused
+          | some o' => walk tbl more' o' a (acc ++ [o])
+
+/-- `store_true` for every flag of the list -/
+def PState.addFlags (st : PState) (os : List OptSpec) : PState :=
+  os.foldl (fun st o => match o.param with
+    | some p => st.addOpt p.name (.flag true)
+    | none => st) st
+
 /-- options up to the next positional-looking string.  A long option may be abbreviated (`resolveLong`); an
 ambiguous abbreviation never gets here (`parseCmd` rejects the whole line first, as argparse's pre-pass does).
 A string that is no option of the command is left over (`unrecognized arguments`, reported when all else is fine).
 `--name=value` binds like `--name value`; an option that takes no value (`store_true`, help) answers
-`ignored explicit argument`; the value `--` is outside the fragment (argparse strips it and stores an empty list). -/
+`ignored explicit argument`; the value `--` is outside the fragment (argparse strips it and stores an empty list).
+A single-dash string with more behind its first letter (`attached`): a first letter that is no option of the command
+leaves the whole string over; otherwise `walk` — its errors (`refused`; the option with a value that ends the string is
+not followed by a value) come before any action is taken, then the actions in order: a help action among them is the
+command's help, flags are set, the value is converted.  The separator `--` ends the options. -/
 def scanOpts (me : Str) (tbl : List OptSpec) : List Tok → PState → Scan
   | [], st => .cont st []
   | .other :: _, _ => .stop none
   | .word w :: rest, st => .cont st (.word w :: rest)
+  | .sep :: rest, st => .cont st (.sep :: rest)
+  | .attached c _ v more :: rest, st =>
+    match findShort tbl c with
+    | none => scanOpts me tbl rest { st with extras := true }
+    | some o =>
+      match walk tbl more o (some v) [] with
+      | .refused => .stop (some (.error .explicitArg))
+      | .done os none =>
+        if os.any OptSpec.isHelp then .stop (some (.help (some me))) else scanOpts me tbl rest (st.addFlags os)
+      | .done os (some (p, some w)) =>
+        if os.any OptSpec.isHelp then .stop (some (.help (some me)))
+        else if w.text = dashdash then .stop none
+        else match convert p.conv w with
+          | none => .stop (some (.error .badValue))
+          | some a => scanOpts me tbl rest ((st.addFlags os).addOpt p.name (.one a))
+      | .done os (some (p, none)) =>
+        match rest with
+        | .word w :: rest' =>
+          if os.any OptSpec.isHelp then .stop (some (.help (some me)))
+          else match convert p.conv w with
+            | none => .stop (some (.error .badValue))
+            | some a => scanOpts me tbl rest' ((st.addFlags os).addOpt p.name (.one a))
+        | _ => .stop (some (.error .needsValue))
   | .short c :: rest, st =>
     match findShort tbl c with
     | none => scanOpts me tbl rest { st with extras := true }
@@ -296,8 +373,11 @@ def scanOpts (me : Str) (tbl : List OptSpec) : List Tok → PState → Scan
           | none => .stop (some (.error .badValue))
           | some a => scanOpts me tbl rest (st.addOpt p.name (.one a))
 
-/-- one run of positional-looking strings -/
+/-- one run of positional-looking strings.  A separator inside the run is taken in by the positional action in front
+of it (argparse 3.12.1: the pattern of a positional allows `--` around its strings, and the first `--` among the strings
+of an action is removed). -/
 def bindWords : List Tok → PState → Scan
+  | .sep :: rest, st => bindWords rest st
   | .word w :: rest, st =>
     match st.posLeft with
     | [] => bindWords rest { st with extras := true }
@@ -355,20 +435,52 @@ def startsWithWord : List Tok → Bool
   | .word _ :: _ => true
   | _ => false
 
+/-- the run of positional strings begins here: a positional-looking string or the separator -/
+def startsRun : List Tok → Bool
+  | .word _ :: _ => true
+  | .sep :: _ => true
+  | _ => false
+
+def Tok.isWord : Tok → Bool
+  | .word _ => true
+  | _ => false
+
+/-- what the lexer guarantees: behind the (first) separator there are only words -/
+def sepOk : List Tok → Bool
+  | [] => true
+  | .sep :: rest => rest.all Tok.isWord
+  | _ :: rest => sepOk rest
+
+/-- a separator with no positional string in front of it is taken in by the first positional action — if there is one;
+a command without positional parameters leaves it over (`unrecognized arguments: --`) -/
+def sepLeads (r : List Tok) (st : PState) : PState :=
+  match r with
+  | .sep :: _ => if st.posLeft.isEmpty then { st with extras := true } else st
+  | _ => st
+
+/-- `--` behind the options that follow the positional strings: every positional parameter that got its string (and a
+var-positional one with it) is done with, so the separator and all behind it are left over; with a single positional
+still unbound argparse would go on binding (a second run: outside the fragment) -/
+def afterOpts (m : Member) (st : PState) : List Tok → Option Verdict
+  | [] => finish m st
+  | .sep :: _ => if st.posLeft.any (fun p => p.kind == .positional) then none else finish m { st with extras := true }
+  | _ => none
+
 def parseCmd (c : Cmd) (toks : List Tok) : Option Verdict :=
   let m := c.member
   let tbl := optTable m.params
   if toks.any (ambiguousTok tbl) then some (.error .ambiguous) else
+  if !sepOk toks then none else
   match scanOpts m.name tbl toks (initState m) with
   | .stop v => v
   | .cont st1 r1 =>
-    if startsWithWord r1 && !canonicalPos st1.posLeft then none else
-    match bindWords r1 st1 with
+    if startsRun r1 && !canonicalPos st1.posLeft then none else
+    match bindWords r1 (sepLeads r1 st1) with
     | .stop v => v
     | .cont st2 r2 =>
       match scanOpts m.name tbl r2 st2 with
       | .stop v => v
-      | .cont st3 r3 => if r3.isEmpty then finish m st3 else none
+      | .cont st3 r3 => afterOpts m st3 r3
 
 /-- `none`: the line is outside the modelled fragment -/
 def parseLine (t : Table) (toks : List Tok) : Option Verdict :=
@@ -382,6 +494,13 @@ def parseLine (t : Table) (toks : List Tok) : Option Verdict :=
   | .short c :: _ => if c = 'h' then some (.help none) else none
   | .long n :: _ => if n.isPrefixOf helpName then some (.help none) else none       -- `--h`, `--he`, `--hel`, `--help`
   | .eq n _ :: _ => if n.isPrefixOf helpName then some (.error .explicitArg) else none
+  | .attached c _ v more :: _ =>                    -- `-hh`, `-h=h`: help; `-hx`, `-h=`: `ignored explicit argument`
+    if c = 'h' then
+      match walk [helpOpt] more helpOpt (some v) [] with
+      | .refused => some (.error .explicitArg)
+      | .done _ _ => some (.help none)
+    else none
+  | .sep :: _ => none
   | .other :: _ => none
 
 /-! ### dispatch (`_exec_method_and_respond`) and the reply rule -/
@@ -433,6 +552,8 @@ structure Choice where
   a     : Atom               -- what the value converts to
   abbr  : Option Str := none -- long form only: write `--abbr` instead of the full `--long-name`
   eq    : Bool := false      -- long form of an option with a value only: write `--name=value` (one string)
+  glued : Option Bool := none -- short form of an option with a value only: ONE string, `-cVALUE` (`some false`) or `-c=VALUE` (`some true`)
+  tail  : List (Char × Option Word) := [] -- glued only: VALUE as the lexer reads it letter by letter (plays no part)
 deriving Repr, Inhabited
 
 /-- the name written behind `--` -/
@@ -448,7 +569,10 @@ def Choice.val (c : Choice) : ArgVal := if c.p.kind = .flag then .flag true else
 def Choice.render (c : Choice) : List Tok :=
   if c.p.kind = .flag then [c.tok]
   else match c.short with
-    | some f => [.short f, .word c.w]
+    | some f =>
+      match c.glued with
+      | some e => [.attached f e c.w c.tail]
+      | none => [.short f, .word c.w]
     | none => if c.eq then [.eq c.longName c.w] else [.long c.longName, .word c.w]
 
 /-- `n` abbreviates the long option `full` of a parser with the options `tbl`: a non-empty prefix of it and of no
@@ -458,14 +582,53 @@ def abbrevOk (tbl : List OptSpec) (n full : Str) : Prop :=
 
 def renderOpts (cs : List Choice) : List Tok := cs.flatMap Choice.render
 
-/-- the choice names an option of the method, in a form the parser built for it (short flag, long option string, an
-unambiguous abbreviation of it, each of the long ones with the value behind a blank or behind `=`), with a value its
-converter accepts -/
+/-- the choice names an option of the method, in a form the parser built for it (short flag — the value in the next
+string or in the same one, directly behind the letter or behind `=` —, long option string, an unambiguous abbreviation of
+it, each of the long ones with the value behind a blank or behind `=`), with a value its converter accepts -/
 def Choice.ok (ps : List Param) (c : Choice) : Prop :=
   c.p ∈ ps ∧ c.p.isOpt = true ∧ (∀ f, c.short = some f → (c.p, some f) ∈ assignFlags ps [])
     ∧ (c.p.kind ≠ .flag → convert c.p.conv c.w = some c.a)
     ∧ (∀ n, c.abbr = some n → abbrevOk (optTable ps) n (dash c.p.name))
     ∧ (c.eq = true → c.w.text ≠ dashdash)
+    ∧ (c.glued.isSome = true → c.w.text ≠ dashdash)
+
+/-- options as they stand on the command line: one on its own (`one`), or several in ONE single-dash string
+(`cluster`): the flag `f`, further flags `fs`, and last `c` — a flag, or an option with a value: the rest of the string
+(`c.glued ≠ none`) or the next string.  Every flag of a cluster comes with what the lexer makes of the text behind its
+letter (a `Word`; plays no part). -/
+inductive Item
+  | one (c : Choice)
+  | cluster (f : Choice) (jf : Word) (fs : List (Choice × Word)) (c : Choice)
+deriving Repr, Inhabited
+
+def Choice.letter (c : Choice) : Char := c.short.getD '-'
+
+/-- the options an item writes, in the order in which they take effect -/
+def Item.choices : Item → List Choice
+  | .one c => [c]
+  | .cluster f _ fs c => f :: (fs.map (·.1) ++ [c])
+
+/-- what stands behind the last letter of a cluster: nothing (a flag; an option whose value is the next string) or the
+value -/
+def Choice.lastArg (c : Choice) : Option Word :=
+  if c.p.kind = .flag then none else if c.glued.isSome then some c.w else none
+
+def Item.render : Item → List Tok
+  | .one c => c.render
+  | .cluster f jf fs c =>
+    .attached f.letter false jf (fs.map (fun x => (x.1.letter, some x.2)) ++ ((c.letter, c.lastArg) :: c.tail))
+      :: (if c.p.kind = .flag ∨ c.glued.isSome then [] else [.word c.w])
+
+/-- a flag of the method written by its letter -/
+def Choice.okFlag (ps : List Param) (c : Choice) : Prop := c.ok ps ∧ c.p.kind = .flag ∧ c.short.isSome = true
+
+def Item.ok (ps : List Param) : Item → Prop
+  | .one c => c.ok ps
+  | .cluster f _ fs c => f.okFlag ps ∧ (∀ x ∈ fs, x.1.okFlag ps) ∧ c.ok ps ∧ c.short.isSome = true
+
+def renderItems (l : List Item) : List Tok := l.flatMap Item.render
+
+def itemChoices (l : List Item) : List Choice := l.flatMap Item.choices
 
 /-- a positional argument string and what it converts to -/
 structure PosArg where
